@@ -21,7 +21,9 @@ def run(ctx):
         if ctx.quick:       # all primitives, every 4th composite
             prim = [s for s in out if s["expr"]["k"] in ("par", "tri", "circle", "interval", "sphere", "poly", "mesh")]
             rest = [s for s in out if s["expr"]["k"] not in ("par", "tri", "circle", "interval", "sphere", "poly", "mesh")]
-            out = prim + ctx.stratified(rest, 0.25, key=lambda s: geo_sig(s["expr"], False))
+            nested = [s for s in rest if s["expr"]["k"] == "trans" and s["expr"]["d"]["k"] == "trans"]      # (few: always kept)
+            rest = [s for s in rest if s not in nested]
+            out = prim + nested + ctx.stratified(rest, 0.25, key=lambda s: geo_sig(s["expr"], False))
         scen = out
     traces = ctx.drive("geoattr", scen, timeout=3000)
     ctx.validate("Trace_C18", traces, timeout=3000)
